@@ -189,7 +189,7 @@ def r21_raw_parts(toks, log):
 
 def r22_xor_zip(toks, log):
     """R22: the statement `A.iter_mut().zip(B).for_each(|(l, r)| *l ^= r);` (iterator adapters, outside Verus) ->
-    `verif_xor_in_place(&mut A, B);` (assumed contract: A[i] ^= B[i] for i < min(len))."""
+    `A.v_xor_with(B);` (shim trait VXor, assumed contract: A[i] ^= B[i] for i < min(len))."""
     out = []
     i = 0
     n = len(toks)
@@ -202,7 +202,7 @@ def r22_xor_zip(toks, log):
             zc = match_close(toks, zo)
             if [x.text for x in toks[zc + 1:zc + 1 + len(tail)]] == tail:
                 log.add("R22", t, render(toks[i:zc + 1 + len(tail)]))
-                out += gen("verif_xor_in_place(&mut " + t.text + ",", t, t.ws) + toks[zo + 1:zc] + gen(")", t, "")
+                out += gen(t.text + ".v_xor_with(", t, t.ws) + toks[zo + 1:zc] + gen(")", t, "")
                 i = zc + 1 + len(tail)
                 continue
         out.append(t); i += 1
@@ -350,6 +350,41 @@ def r24_hoist_local_types(toks, log):
     hoisted[0] = hoisted[0].clone(ws=first.ws)
     rest = [first.clone(ws="\n")] + toks[1:body + 1] + out_body + toks[close:]
     return hoisted + rest
+
+def r25_index_mut_range(toks, log):
+    """R25: mutable range indexing (IndexMut<Range..> is outside Verus): `&mut X[a..b]` -> `X.v_range_mut(a, b)` (missing bounds: 0 / X.len());
+    the re-slicing assignment `X = &mut X[a..];` -> `X = verif_reslice_mut(X, a);` (the mutable slice is moved in and handed back shorter)."""
+    out = []
+    i = 0
+    n = len(toks)
+    while i < n:
+        t = toks[i]
+        if t.text == "&" and i + 3 < n and toks[i + 1].text == "mut" and toks[i + 2].kind == "id" and toks[i + 3].text == "[":
+            x = toks[i + 2]
+            c = match_close(toks, i + 3)
+            depth = 0
+            split = None
+            for j in range(i + 4, c):
+                if toks[j].text in OPEN: depth += 1
+                elif toks[j].text in (")", "]", "}"): depth -= 1
+                elif toks[j].text == ".." and depth == 0:
+                    split = j; break
+            if split is not None:
+                lo = toks[i + 4:split]
+                hi = toks[split + 1:c]
+                # `X = &mut X[a..]`
+                if len(out) >= 2 and out[-1].text == "=" and out[-2].kind == "id" and out[-2].text == x.text and lo and not hi:
+                    log.add("R25", t, "reslice " + x.text)
+                    out += gen("verif_reslice_mut(" + x.text + ",", t, t.ws) + [y.clone() for y in lo] + gen(")", t, "")
+                else:
+                    log.add("R25", t, "&mut " + x.text + "[range]")
+                    lo_t = [y.clone() for y in lo] if lo else gen("0", t, "")
+                    hi_t = [y.clone() for y in hi] if hi else gen(x.text + ".len()", t, "")
+                    out += gen(x.text + ".v_range_mut(", t, t.ws) + lo_t + gen(",", t, "") + hi_t + gen(")", t, "")
+                i = c + 1
+                continue
+        out.append(t); i += 1
+    return out
 
 def r6_derives_and_attrs(toks, log, keep_derives=None):
     out = []
@@ -794,6 +829,7 @@ def apply_item_rewrites(toks, log, opts=None):
     toks = r14_concat(toks, log)
     toks = r21_raw_parts(toks, log)
     toks = r22_xor_zip(toks, log)
+    toks = r25_index_mut_range(toks, log)
     toks = r24_hoist_local_types(toks, log)
     if opts.get("str_ops"):
         toks = r23_str_ops(toks, log, opts["str_ops"])
